@@ -45,7 +45,60 @@ def config(kind, tier):
     return cfg
 
 
-def alphabet(kind, tier="quick"):
+P61 = 2 ** 61 - 1
+# identifier universes: "std" = the literals used below; "colliding" = the same roles played by identifiers whose Python hashes
+# coincide (hash(-1) == hash(-2) == hash(-(P+2)); hash(0) == hash(P) == hash(2P) == hash(3P)) - present atoms collide with each
+# other, with the relabelling target and with the never-added identifiers
+IDSETS = {"std": None, "colliding": {0: -1, 1: -2, 2: P61, 3: 0, 5: -(P61 + 2), 9: 2 * P61, 8: 3 * P61}}
+
+
+def _rid(x, mp):
+    return mp.get(x, x) if x is not None else None
+
+
+def _rdesc(d, mp):
+    c, t, p = d["D"]
+    return {"D": [c, [_rid(a, mp) for a in t], p]}
+
+
+def rename_op(op, mp):
+    """the same op with every atom identifier sent through mp (values, attribute names, parities are left alone)"""
+    name = op[0]
+    kw = op[-1] if (len(op) > 1 and isinstance(op[-1], dict) and "kw" in op[-1]) else None
+    args = list(op[1:-1] if kw is not None else op[1:])
+    if name in ("add_atom", "remove_atom", "set_atom_attribute", "delete_atom_attribute", "has_atom", "get_atom_attribute",
+                "get_atom_attributes", "get_atom_type", "bonded_to", "node_connected_component", "neighbors_getitem", "views_getitem",
+                "delete_atom_stereo", "get_atom_stereo", "get_atom_stereo_change", "delete_atom_stereo_change"):
+        args[0] = _rid(args[0], mp)
+    elif name in ("add_bond", "remove_bond", "add_formed_bond", "add_broken_bond", "add_fleeting_bond", "set_bond_attribute",
+                  "delete_bond_attribute", "has_bond", "get_bond_attribute", "get_bond_attributes"):
+        args[0], args[1] = _rid(args[0], mp), _rid(args[1], mp)
+    elif name in ("delete_bond_stereo", "get_bond_stereo", "get_bond_stereo_change", "delete_bond_stereo_change"):
+        args[0] = [_rid(a, mp) for a in args[0]]
+    elif name == "relabel_atoms":
+        args[0] = {"map": [[_rid(a, mp), _rid(b, mp)] for a, b in args[0]["map"]]}
+    elif name in ("set_atom_stereo", "set_bond_stereo"):
+        args[0] = _rdesc(args[0], mp)
+    elif name == "views":
+        args = [{"universe": [_rid(a, mp) for a in (0, 1, 2, 3, 5, ABSENT)]}]
+    out = [name] + args
+    if kw is not None:
+        k2 = {}
+        for k, v in kw["kw"].items():
+            k2[k] = _rdesc(v, mp) if isinstance(v, dict) and "D" in v else v
+        out.append({"kw": k2})
+    return out
+
+
+def universe(kind, tier="quick", idset="std"):
+    ids = config(kind, tier)["ids"] + [5, ABSENT]
+    mp = IDSETS[idset]
+    return ids if mp is None else [_rid(a, mp) for a in ids]
+
+
+def alphabet(kind, tier="quick", idset="std"):
+    if idset != "std":
+        return [rename_op(o, IDSETS[idset]) for o in alphabet(kind, tier)]
     cfg = config(kind, tier)
     ids, pairs, els = cfg["ids"], cfg["pairs"], cfg["els"]
     ops = []
@@ -432,7 +485,7 @@ def apply_real(g, op):
     if name == "views":
         from ..snapshot import views
 
-        return views(g, [0, 1, 2, 3, 5, ABSENT])
+        return views(g, args[0]["universe"] if args else [0, 1, 2, 3, 5, ABSENT])
     if name in ("get_atom_attributes", "get_bond_attributes"):
         r = getattr(g, name)(*args)
         return dict(r)
